@@ -261,6 +261,9 @@ def fixed_cases() -> list:
         {'messages': [[0, OPEN, open_rfc], [2, OPEN, open_cisco], [0, NOTIFICATION, '0602']], 'motifs': ['fixed:route-refresh-codes']},
         {'messages': [[0, UPDATE, aigp], [2, UPDATE, aigp]], 'motifs': ['fixed:aigp-accepted-then-not']},
         {'messages': [[2, UPDATE, aigp], [0, UPDATE, aigp]], 'motifs': ['fixed:aigp-refused-then-accepted']},
+        # one attribute block, first with withdrawn routes beside the announce, then without, and the other way round
+        {'messages': [[0, UPDATE, build.update_body(bytes([24, 10, 0, 2]), block, bytes([24, 10, 0, 1])).hex()], [0, UPDATE, plain]], 'motifs': ['fixed:withdrawn-then-not']},
+        {'messages': [[0, UPDATE, plain], [0, UPDATE, build.update_body(bytes([24, 10, 0, 2]), block, bytes([24, 10, 0, 1])).hex()]], 'motifs': ['fixed:not-then-withdrawn']},
     ]
 
 
